@@ -394,6 +394,12 @@ func (g *gen) indexExpr(base Expr, n int, depth int) Expr {
 			// open finding C14-3: `ov % n` / min / clamp over overrides is folded by an evaluator that only knows + - * /
 			return g.runtimeLeaf(t.S)
 		}
+		if g.inConst == 0 && len(g.inputs) > 0 && !IsConstExpr(e) && foldable(e) && g.f.off("const.index.wrapped-intermediate") {
+			// open finding C06-21: an index built from constants through lets (not a const-expression, so u32 / i32
+			// arithmetic wraps) is evaluated by naga's index evaluator in 64 bits without wrap-around
+			g.class("index:foldable-made-runtime")
+			return g.runtimeLeaf(t.S)
+		}
 		return e
 	}
 	switch g.intn(3, "dynidx") {
